@@ -21,8 +21,9 @@ Fixpoint skip_lines (n : nat) (s : bytes) : option bytes :=
   end.
 
 (* the pre-rendering of signMessage (msgWriter.enclosedForm = true, into a bytes.Buffer) and the
-   bytes handed to the signer: everything after the counted header lines.  Render errors of the
-   pre-rendering are ignored by the code; the final render reports them. *)
+   bytes handed to the signer: everything after the counted header lines.  A render error of the
+   pre-rendering makes signMessage fail (repo fix "S/MIME signing fails when the message cannot be
+   rendered for signing"; T1: Gen.sign_checks_prerender_error). *)
 Definition prerender (z : rmsg) : mw := write_resolved_gen true z (mw_init unlimited).
 
 Definition sign_input (z : rmsg) : option bytes :=
@@ -49,6 +50,21 @@ Record sresult := mksres { s_out : bytes; s_n : nat; s_err : bool; s_panic : boo
 (* Msg.WriteTo with S/MIME: resolve, pre-render, sign, render.  [signer] is the CMS oracle. *)
 Definition write_to_signed (signer : bytes -> bytes) (date msgid : bytes) (rb : list bytes) (sb : bytes)
                            (m : msg) (k : sink) : sresult :=
+  let z := resolve date msgid rb m in
+  (* signMessage: "if mw.err != nil { return … }" — WriteTo then returns (0, err): nothing is signed,
+     nothing is written; the Msg keeps what the pre-render resolved *)
+  if err (prerender z) then mksres [] 0 true false (z_msg z) None
+  else
+  match sign_input z with
+  | None => mksres [] 0 true false (z_msg z) None
+  | Some inp =>
+      let st := write_resolved_signed z sb (signer inp) (mw_init k) in
+      mksres (accepted (snk st)) (bw st) (err st) (panicked st) (z_msg z) (Some inp)
+  end.
+
+(* the code before that fix: the pre-render's error was ignored (kept for C08_prerender_error_before_fix_refuted) *)
+Definition write_to_signed_before_fix (signer : bytes -> bytes) (date msgid : bytes) (rb : list bytes) (sb : bytes)
+                                      (m : msg) (k : sink) : sresult :=
   let z := resolve date msgid rb m in
   match sign_input z with
   | None => mksres [] 0 true false (z_msg z) None
